@@ -14,6 +14,24 @@ CHECKS = {
              "`accepted <=> documented-semantics oracle` and `output == input` for every cell value, null flag, label, check "
              "argument and boolean option within the stated shape bounds; counterexamples are replayed on real pandas.",
         ref="4/C01", tech="symbolic execution (symx over the symframe model) + z3 per-path obligations, differential replay on real pandas"),
+    "C02": dict(
+        text="The same symbolic (schema, data) is validated eagerly and lazily inside one path; z3 decides per path that both raise or neither, that the eager error is among the lazy ones, and that the consolidated failure-case table (a symbolic table whose row-presence conditions are formulas) lists exactly the violating (column, label, value) cells; error counts compared per reason.",
+        ref="4/C02", tech="symbolic execution of both validation modes + z3 obligations over the symbolic failure-case table"),
+    "C03": dict(
+        text="For every combination of parsing options in the template family the returned symbolic object is re-validated inside the same path by the real code (parsing options off, and again with them on); z3 proves acceptance and cell-wise identity for all inputs within the bounds.",
+        ref="4/C03", tech="symbolic execution (fixpoint harness) + z3"),
+    "C04": dict(
+        text="Input snapshot (term lists, labels, names, dtypes) before vs after the real validate call on every path and every outcome; equality discharged syntactically or by z3; container kind asserted on return.",
+        ref="4/C04", tech="symbolic execution with aliasing-aware environment model + z3"),
+    "C06": dict(
+        text="Every explored path of the schema-shape family must end in the documented channel; user callbacks consult one symbolic fault flag per invocation, so the solver enumerates fault schedules; schema fingerprint, configuration and input compared before/after.",
+        ref="4/C06", tech="symbolic execution with symbolic fault schedules (one solver variable per callback invocation)"),
+    "C11": dict(
+        text="Row presence of the returned symbolic frame is a formula over the inputs; z3 proves it equals the documented row-level validity predicate (no invalid row survives, no valid row dropped, surviving cells unchanged).",
+        ref="4/C11", tech="symbolic execution + z3 equivalence of row-presence formulas with the oracle"),
+    "C18": dict(
+        text="Real config_context nestings with symbolic option values/None-ness/exception flags (restoration and honouring proved per path); CrossHair on the real env parser with a symbolic environment; depth algebra acc_SAD <=> acc_SO and acc_DO and restriction laws on symbolic frames; polars default-depth truth table.",
+        ref="4/C18", tech="symbolic execution (symx) + CrossHair (z3) on string-valued environment parsing"),
 }
 
 NOT_APPLICABLE = {
